@@ -21,4 +21,18 @@ CLAIMED = {
     },
 }
 
+CLAIMED["C06"] = {
+    "technique": "path-sensitive ownership typestate over the clang CFG with callee summaries; atomic RMW-decides rule (dataflow from the RMW result to the guard, polarity table); finite-domain evaluation of the flag dispatch; who-may-write table",
+    "text": ("Decided on every run, for all CFG paths: (1) the sender-cancel, receiver-undo and receiver-extract updates of the per-message flag "
+             "word are single atomic RMWs, the value each returns is the only flag value the following decision reads, and the guard has the "
+             "bit and polarity the protocol needs; handle_anti_msg, evaluated over the three classes of previous values, frees / rolls back then "
+             "frees / hands to the remote matcher exactly as required; (2) every owned message is released or handed over exactly once on every "
+             "path of every function (typestate with boolean-result-dependent callee summaries); (3) no dereference or argument use after a "
+             "release anywhere; (4) fossil collection and LP shutdown release history entries per the ownership table; (5) only the protocol's "
+             "functions touch the flag word; (6) the remote matcher marks the cancelled event before rolling back; (7) remotely cancelled buffers "
+             "are released only through the at-GVT list. NOT decided: what each RMW returns under all interleavings of sender and receiver "
+             "(the race between the RMWs themselves) — that needs schedules, which this technique does not explore."),
+    "note": TRUST,
+}
+
 NOT_APPLICABLE = {}
